@@ -1,4 +1,5 @@
 import Verif.Model.Align
+import Verif.Model.EditDist
 import Verif.Driver.Util
 namespace Verif.Driver
 open Verif.Align
@@ -61,6 +62,10 @@ def handleAlign (fs : List (List String)) : Option String :=
         match tbGlobal tb a b N M [] with
         | some cols => some s!"G {if ok then 1 else 0} {" ".intercalate (cols.map colOut)}"
         | none => some s!"E {if ok then 1 else 0}"
+    | _ => some "bad-request"
+  | ["edit"] =>
+    match fs with
+    | [_, a, b] => some s!"D {editDist (nats a) (nats b)} {lev (nats a) (nats b)}"
     | _ => some "bad-request"
   | ["dist"] =>
     match alignInput fs with
